@@ -23,6 +23,7 @@ def dispatch (line : String) : String :=
   | "c02" :: r => C02.handle r
   | "c13p" :: r => C02.handleParse r
   | "c13e" :: r => C13.handle r
+  | "c13q" :: r => C13.handleParams r
   | "c03" :: r => C03.handle r
   | "c06" :: r => C06.handleSem r
   | "c07" :: r => C06.handleIds r
